@@ -26,7 +26,7 @@ ASSUMPTIONS = ['import after export is compared to rtol 1e-12 (jackknife) / 1e-9
 EXHAUSTIVE = True
 REPEAT = 2      # every case is evaluated twice in the same process: the second verdict must equal the first (call-history oracle)
 CHUNK = 4
-DATA = ['white', 'ar1', 'alt', 'count', 'const']
+DATA = ['white', 'ar1', 'alt', 'count', 'const', 'precise']      # precise: relative fluctuations of a few 1e-4 (nearly, but not, constant samples)
 
 
 def idl_for(kind, n):
@@ -63,7 +63,10 @@ def build(tier, seed):
 
 def mk(pe, n, ik, d, key, name='A|r1'):
     cfgs = idl_for(ik, n)
-    x = alpha.data(d, cfgs, alpha.rng('c13', key, n, ik, d), 1.0 if d != 'count' else 0.0, 0.3)
+    if d == 'precise':
+        x = 0.5937 + 2e-4 * alpha.rng('c13', key, n, ik, d).normal(size=len(cfgs))
+    else:
+        x = alpha.data(d, cfgs, alpha.rng('c13', key, n, ik, d), 1.0 if d != 'count' else 0.0, 0.3)
     return pe.Obs([x], [name], idl=[alpha.idl_carrier(cfgs)]), np.asarray(x, dtype=float), cfgs
 
 
